@@ -1,15 +1,27 @@
 PROP = dict(
     level="exploration",
-    technique="in-package exhaustive-small + rapid tests of fragment.mergeBlock against a per-bit majority model; end-to-end on real 2/3-node gossip clusters",
-    level_text="TODO",
-    level_note="TODO",
-    rule="TODO",
-    assumptions=[],
-    tags=[],
+    technique="in-package exhaustive-small + rapid tests of fragment.mergeBlock against a per-bit majority model; rapid-generated divergence on real 2- and 3-node gossip clusters (replicas = nodes), Server.SyncData, read-back comparison",
+    level_text="Function level: fragment.mergeBlock is run on every content of 4 block-edge positions for every replica with 2 and 3 replicas (4608 cases, exhaustive) and on generated "
+               "contents (2-5 replicas, up to 200 positions, shards 0/1/5, blocks 0/1/7, local bits in neighbouring blocks); the local fragment must end with exactly the per-bit majority "
+               "(ties = set) of the block, bits of other blocks untouched, and the sets/clears returned for every remote must be exactly majority minus remote and remote minus majority; "
+               "the repaired fragment's Blocks() must equal those of a fragment that simply holds the majority. "
+               "End to end: on real gossip clusters of 2 and 3 nodes with replicas = nodes and the anti-entropy timer off, generated bits are written to individual nodes only "
+               "(Field.SetBit on that node's holder with and without timestamps, API.ImportRoaring(remote=true) into chosen views), the contents of every (field, view, shard) on every node are read back, "
+               "Server.SyncData runs on one generated node and then on all; after each stage every node must hold the per-bit majority of what was read, in the same view, and report identical FragmentBlocks.",
+    level_note="Exploration, not proof. Replica counts above 3 are covered at function level only (mergeBlock with up to 4 remotes); the cluster half uses 2 and 3 nodes, rows < 300 (blocks 0-2), 1-2 of shards {0,1,3}, "
+               "a set field and a YMD time field. The oracle of the cluster half is computed from contents read through API.FragmentBlockData before the sync, so it trusts that read path. "
+               "Cluster start-up failure over loopback gossip ends the unit as inconclusive (exit 2). The worktree carries tmp-fix(D11) (importRoaring did not invalidate cached block checksums; owned by another group): "
+               "without it the remote replica keeps reporting a stale checksum after being repaired.",
+    rule="function level: case = (replica contents of one block, shard, block id); cluster: case = (node count, shards, list of per-node writes, node that syncs). distinct = hash of that input. "
+         "non-trivial = some replica needs both a set and a clear in one block, or needs >= 2 clears, or there are >= 3 replicas, or (cluster) a non-standard view diverges.",
+    assumptions=["remote block data passed to mergeBlock is sorted by (row, column) and confined to the block, as fragment.blockData produces it",
+                 "ties (exactly half of the replicas hold the bit) resolve to set, as the property states",
+                 "cluster half: no writes race with the anti-entropy pass (the property speaks of a completed pass over given contents)"],
+    tags=["gx"],
     units=[
         U("mergeexh", ".", "^TestVerifC11_MergeExhaustive$", 0, 0, sq=1, sth=1, rapid=False),
         U("mergernd", ".", "^TestVerifC11_MergeRandom$", 1500, 60000, sq=3, sth=8),
-        U("e2e2", "./server", "^TestVerifC11_E2E2$", 60, 1500, sq=2, sth=3),
-        U("e2e3", "./server", "^TestVerifC11_E2E3$", 60, 1500, sq=2, sth=3),
+        U("e2e2", "./server", "^TestVerifC11_E2E2$", 30, 450, sq=2, sth=3, timeout={"quick": 400, "thorough": 1500}),
+        U("e2e3", "./server", "^TestVerifC11_E2E3$", 36, 450, sq=2, sth=3, timeout={"quick": 400, "thorough": 1500}),
     ],
 )
